@@ -61,7 +61,7 @@ func (f *RenamePackage) Call(s *slip.Scope, args slip.List, depth int) (result s
 	}
 	if 2 < len(args) {
 		var nicknames []string
-		list, ok := args[2].(slip.List)
+		list, ok := listArg(args[2])
 		if !ok {
 			slip.TypePanic(s, depth, "nicknames", args[2], "list")
 		}
